@@ -606,7 +606,10 @@ def cli1(ctx, c):
             c.undecided("assembler.main:CoCoFile.%s" % k, "expression-not-recognised", kw.get(k), repo.loc(fn, cf[0]))
     for k, v in (("type", 0x02), ("data_type", 0x00)):
         node = next((x.value for x in cf[0].value.keywords if x.arg == k), None)
-        val = try_fold(node.args[0]) if isinstance(node, ast.Call) and U(node.func) == "NumericValue" and node.args else None
+        val = try_fold(node.args[0], ctx.env) if isinstance(node, ast.Call) and U(node.func) == "NumericValue" and node.args else None
+        if val is None:
+            c.undecided("assembler.main:CoCoFile.%s" % k, "value-not-constant", U(node) if node is not None else "", repo.loc(fn, cf[0]))
+            continue
         c.check(val == v, "assembler.main:CoCoFile.%s" % k, "%#04x" % v, "%s = %s" % (k, U(node) if node is not None else None),
                 "assembler.py marks the saved file with %s=%s; a machine-language binary file is %s=%02X" % (k, U(node) if node is not None else None, k, v), repo.loc(fn, cf[0]))
     # process() runs on that program with the lines read from args.filename
